@@ -1025,12 +1025,22 @@ func (fr *Frame) assertParts(x *Term, at types.Type) (ok, val, fresh *Term) {
 func (fr *Frame) doPanic(in *ssa.Panic) {
 	ex := fr.ex
 	if ex.c != nil && len(ex.c.PanicsWhen) > 0 && fr.top {
+		// the declared conditions are evaluated where the panic happens (parameters as at entry, the
+		// state - including the records of calls made so far - as it is now)
 		env := fr.entryEnv()
+		env.st = ex.st
+		env.dbgHead = in.Block()
 		var conds []*Term
+		props := append([]string{}, safetyProps...)
+		label := "panic-only-when-declared"
 		for _, cl := range ex.c.PanicsWhen {
 			conds = append(conds, fr.evalBool(cl.Expr, env))
+			props = unionProps(props, cl.Props)
+			if cl.Label != "" {
+				label = "panics-" + cl.Label
+			}
 		}
-		fr.oblige("safe", "panic-only-when-declared", safetyProps, Or(conds...), in.Pos())
+		fr.oblige("safe", label, props, Or(conds...), in.Pos())
 		return
 	}
 	fr.oblige("safe", "explicit-panic-unreachable", safetyProps, TFalse, in.Pos())
